@@ -40,7 +40,9 @@ class BlsHooks(Hooks):
         return fi.module.name == B
 
     def name(self, it, name, node):
-        if name == 'POW_2_382':
+        # the infinity flag, by provenance (py_ecc's constant, or a module constant that folds to 2^382), not by what the module calls it
+        mi = it.repo.modules[B]
+        if mi.imports.get(name) == 'py_ecc.bls.constants.POW_2_382' or (name in mi.assigns and it.repo.fold(mi.assigns[name], mi) == 2 ** 382):
             return Sym('POW_2_382', 'int')
         return NotImplemented
 
@@ -157,6 +159,12 @@ def run(repo: Repo, chk: Check) -> None:
                     is_identity = True
                 if isinstance(got, tuple) and got and vrepr(got[-1]) in ('FQ(0)', 'FQ2([0, 0])', "call:py_ecc.fields.optimized_bls12_381_FQ.zero()", "call:py_ecc.fields.optimized_bls12_381_FQ2.zero()"):
                     is_identity = True
+                # the infinity flag is bit 6 of the FIRST byte of the encoding (zcash format): 2^382 in the first 48-byte field, zeros after it
+                want_inf = 'bytes(' + ', '.join(["tb($POW_2_382, 48, 'big')"] + ["tb(0, 48, 'big')"] * (ncoord - 1)) + ')'
+                chk.ob('R-PAIR', f'{q}.from_point', encoded == want_inf, 'point at infinity: flag 2^382 in the first 48-byte field, every other field zero', fp.loc,
+                       {'encoding': encoded, 'reference': want_inf},
+                       what=f'{g}.from_point writes the point at infinity as {encoded}; Tezos (zcash format) is 0x40 followed by zeros, i.e. {want_inf}: '
+                            'the neutral element leaves the interpreter as bytes no node accepts, and the canonical encoding is not recognised on the way in')
                 chk.ob('R-PAIR', f'{q}.to_point', ok and is_identity, 'point at infinity: to_point recognises the encoding from_point writes', tp.loc,
                        {'encoding': encoded, 'read_back_as': vrepr(got)},
                        what=f'{g}.from_point writes the point at infinity as {encoded} but to_point reads it back as the finite-looking point {vrepr(got)[:120]}: '
